@@ -76,6 +76,27 @@ pub fn config_for(fragset: usize) -> GeneratorConfig {
     GeneratorConfig::default_with_custom_generators(custom)
 }
 
+/// Same fragments reached through the other public ways of building a configuration:
+/// `GeneratorConfig::default()` when there is no custom fragment, the custom fragments in the
+/// opposite order otherwise. The generated modules alternate between the two.
+pub fn config_for_alt(fragset: usize, alt: bool) -> GeneratorConfig {
+    if !alt {
+        return config_for(fragset);
+    }
+    let mut custom: Vec<Box<dyn FragmentGenerator>> = Vec::new();
+    if fragset & 2 != 0 {
+        custom.push(Box::new(SerdeImplGenerator));
+    }
+    if fragset & 1 != 0 {
+        custom.push(Box::new(CloneImplGenerator));
+    }
+    if custom.is_empty() {
+        GeneratorConfig::default()
+    } else {
+        GeneratorConfig::default_with_custom_generators(custom)
+    }
+}
+
 /// Facts of the data of one variant list.
 fn check_variant_list(
     label: &str,
